@@ -24,7 +24,9 @@ def run(tier: str) -> int:
         maxq = 2 if full else 1
         if tier == "thorough" and len(t["tl"]) == 3 and i % 5:
             maxq = 1
-        scns += drv.expand_tl(t, i, maxq, tier)
+        ex = drv.expand_tl(t, i, maxq, tier)
+        ex[0]["bpm_ops"] = (i % 4 == 0)
+        scns += ex
     recs = pmap(drv.exec_c10, scns)
     # 3. beyond the enumerated bounds: random lists, finer grids
     rnd = drv.random_scenarios(400 if tier == "quick" else 6000, tier)
